@@ -26,7 +26,8 @@ EXPLANATION = (
     " Third round: token names for ccg2lambda (R15.5: normalize_token replaces all logic punctuation and prefixes '_'; normalize_tokens leaves nothing it wrote un-normalised) and no module-level table written by the tree builder modules (R15.6)."
     ' Fourth round: the file-name dispatch of the readers (R15.7), the Jigg spelling of one-valued features (R15.8), normalize_tokens works on a copy (R15.9).'
     ' Fifth round: token fields written through `for k, v in token.items(): set(k, f(v))` are rewritten fields.'
-    " Sixth and seventh round: exactly one span flagged as root (R15.3 one-root-flag), categories read from the node's own span, no XML element tested for truth, no container shared between yielded results (R15.2).")
+    " Sixth and seventh round: exactly one span flagged as root (R15.3 one-root-flag), categories read from the node's own span, no XML element tested for truth, no container shared between yielded results (R15.2)."
+    " Eighth round: printers leave the derivation's tokens alone (R15.2); every sentence, failed or not, is numbered (R15.1).")
 TRUSTED = ['CPython ast', 'sa/pysym.py path walker', 'a line-based scan of the YAML templates for `rule:` values']
 
 PX = 'depccg/printer/xml.py'
